@@ -29,7 +29,11 @@
  *
  * Actions: 1 EIO  2 ENOSPC  3 EPIPE(sticky)  4 EACCES  5 EMFILE  6 EINTR
  *          7 SHORT(arg bytes, next write on that fd fails ENOSPC)  8 KILL
- *          9 PLAINSHORT(arg bytes)  10 EISDIR 11 ENOENT 12 EAGAIN(unused)
+ *          9 PLAINSHORT(arg bytes)  10 EISDIR 11 ENOENT 12 EAGAIN
+ *          20 fail with errno = arg (any errno a deployment can meet: EINVAL, ENOMEM, ESTALE, EFBIG, EDQUOT, ...)
+ *
+ * Pipe-like descriptors also *look* like pipes: fstat/statx report a FIFO of size 0 and lseek
+ * fails with ESPIPE, as for a real pipe or FIFO.
  */
 #define _GNU_SOURCE
 #include <errno.h>
@@ -104,6 +108,7 @@ static long seq;
 static int active;
 static int trace_fd = -1;
 static long vclock_sec = 1700000000, vclock_nsec;
+static long cur_arg; /* argument of the fault rule that just fired */
 
 /* ---------- tiny helpers (no stdio, no malloc) ---------- */
 static char *put_long(char *p, long v) {
@@ -285,6 +290,7 @@ static int decide(char call, int target, long *arg) {
             f->fired = 1;
             action = f->action;
             *arg = f->arg;
+            cur_arg = f->arg;
         }
     }
     return action;
@@ -306,6 +312,7 @@ static void raise_sigpipe(void) {
 }
 
 static int action_errno(int action) {
+    if (action == 20) return (int)cur_arg;
     switch (action) {
     case 1: return EIO;
     case 2: return ENOSPC;
@@ -573,6 +580,55 @@ int close(int fd) {
     return 0;
 }
 
+/* ---------- pipe-like descriptors look like pipes ---------- */
+#include <sys/stat.h>
+#include <linux/stat.h>
+
+static int is_pipe_fd(int fd) { return active && fd >= 0 && fd < MAXFD && fds[fd].watched && fds[fd].pipe; }
+
+int fstat64(int fd, struct stat64 *st) {
+    long r = RAW3(SYS_fstat, fd, st, 0);
+    if (r < 0) {
+        errno = (int)-r;
+        return -1;
+    }
+    if (is_pipe_fd(fd)) {
+        st->st_mode = (st->st_mode & ~S_IFMT) | S_IFIFO;
+        st->st_size = 0;
+        st->st_blocks = 0;
+    }
+    return 0;
+}
+int fstat(int fd, struct stat *st) { return fstat64(fd, (struct stat64 *)st); }
+
+int statx(int dirfd, const char *path, int flags, unsigned int mask, struct statx *stx) {
+    long r = raw6(SYS_statx, dirfd, (long)path, flags, mask, (long)stx, 0);
+    if (r < 0) {
+        errno = (int)-r;
+        return -1;
+    }
+    if (is_pipe_fd(dirfd) && path && path[0] == 0) {
+        stx->stx_mode = (stx->stx_mode & ~S_IFMT) | S_IFIFO;
+        stx->stx_size = 0;
+        stx->stx_blocks = 0;
+    }
+    return 0;
+}
+
+off64_t lseek64(int fd, off64_t off, int whence) {
+    if (is_pipe_fd(fd)) {
+        errno = ESPIPE;
+        return -1;
+    }
+    long r = RAW3(SYS_lseek, fd, off, whence);
+    if (r < 0) {
+        errno = (int)-r;
+        return -1;
+    }
+    return r;
+}
+off_t lseek(int fd, off_t off, int whence) { return (off_t)lseek64(fd, off, whence); }
+
 /* ---------- randomness ---------- */
 static uint64_t next_rand(void) {
     uint64_t z = (rseed + (++rctr) * 0x9e3779b97f4a7c15ULL);
@@ -627,6 +683,7 @@ long syscall(long n, ...) {
     va_end(ap);
     if (active && n == SYS_getrandom) return fill_random((void *)a, (size_t)b);
     if (active && n == SYS_gettid) return 4242; /* the thread id appears in panic messages */
+    if (active && n == SYS_statx) return statx((int)a, (const char *)b, (int)c, (unsigned int)d, (struct statx *)e);
     long r = raw6(n, a, b, c, d, e, f);
     if (r < 0 && r > -4096) {
         errno = (int)-r;
